@@ -28,6 +28,8 @@ THEOREMS = [
     "JanetModel.Props.C05.reachable_inv",
     "JanetModel.Props.C05.new_becomes_alive",
     "JanetModel.Props.C05.values_pass_unchanged_in_order",
+    "JanetModel.Props.C05.first_resume_value_bound",
+    "JanetModel.Props.C05.first_resume_enters",
     "JanetModel.Props.C05.deliver_binds_value",
     "JanetModel.Props.C05.unwind_passes",
     "JanetModel.Props.C05.signal_delivered_to_nearest_accepting",
@@ -195,6 +197,11 @@ def run(ctx, only=None):
             if i not in impl:
                 continue
             info = gen.site_info(t)
+            rfl, rsig, rv0 = gen.root_of(fl)
+            if rsig != "none":
+                gen.param_labels(t, rsig, info)
+            info["root_v"] = "nil" if rv0 == "n" else rv0[1:]
+            info["sigs"] = {k: v[:3] for k, v in gen.SIGS.items()}
             bad = oracle.check(impl[i], info, stats)
             same = True
             if model_out is not None and split_line(model_out[i])[1] == "done":
@@ -203,13 +210,6 @@ def run(ctx, only=None):
                 if a != b:
                     diffs.append(i)
                     same = False
-            if bad and same:
-                # the adjacency rules R3 (`values`, `next`) are heuristics about neighbouring trace entries; when the
-                # implementation trace is exactly what the model computes, a hit of only those rules is recorded, not raised
-                hard = [b_ for b_ in bad if b_[0] not in ("values", "next")]
-                if not hard:
-                    unconfirmed.append((i, bad[0]))
-                    bad = []
             if bad:
                 oracle_bad.append((i, bad))
     # raw janet scenarios (regressions of past findings), run under ASan
